@@ -5,7 +5,7 @@ from .lp import Vars, VarSub, Affine, Convex
 from .lp import DecRule
 from .lp import RoAffine, RoConstr
 from .lp import PiecewiseConvex, PWConstr
-from .lp import Solution, def_sol
+from .lp import Solution, def_sol, check_objective
 import numpy as np
 from numbers import Real
 from collections.abc import Iterable
@@ -142,6 +142,7 @@ class Model:
                 if obj.size > 1:
                     raise ValueError('Incorrect function dimension.')
 
+        check_objective(obj, 1)
         self.obj = obj
         self.sign = 1
         self.pupdate = True
@@ -173,6 +174,7 @@ class Model:
                 if obj.size > 1:
                     raise ValueError('Incorrect function dimension.')
 
+        check_objective(obj, -1)
         self.obj = obj
         self.sign = - 1
         self.pupdate = True
@@ -218,6 +220,7 @@ class Model:
                 raise ValueError('Models mismatch.')
             sup_model.st(item)
 
+        check_objective(obj, 1)
         self.obj = obj
         self.obj_support = sup_model.do_math(primal=False, obj=False)
         self.sign = 1
@@ -264,6 +267,7 @@ class Model:
                 raise ValueError('Models mismatch.')
             sup_model.st(item)
 
+        check_objective(obj, -1)
         self.obj = obj
         self.obj_support = sup_model.do_math(primal=False, obj=False)
         self.sign = - 1
